@@ -25,10 +25,11 @@ VARIABLES
   nkill,      \* kill calls in this API call
   killOk,     \* result of the kill of this call was 0
   told,       \* a waitpid of the handle has returned the child's status or ECHILD: it has been told the child is gone
+  eintr,      \* a system call of this API call was interrupted by a signal (EINTR)
   viol
 
 pvars == <<cst, truth, exitT, now, det, known, op, opD, opN, t0, knownAtCall, nwait, slept, nsys, nkill, killOk,
-           told, viol>>
+           told, eintr, viol>>
 
 NoSt == [k |-> "none", v |-> 0]
 NoTime == <<>>
@@ -58,36 +59,37 @@ MaxChecks(d) == 20 + d[1] * 100 + d[2] \div 10000000
 PReset(d0) ==
   /\ cst' = "running" /\ truth' = NoSt /\ exitT' = NoTime /\ now' = <<0, 0>> /\ det' = d0
   /\ known' = NoSt /\ op' = "none" /\ opD' = <<0, 0>> /\ opN' = 0 /\ t0' = <<0, 0>> /\ knownAtCall' = NoSt
-  /\ nwait' = 0 /\ slept' = FALSE /\ nsys' = 0 /\ nkill' = 0 /\ killOk' = TRUE /\ told' = FALSE /\ viol' = {}
+  /\ nwait' = 0 /\ slept' = FALSE /\ nsys' = 0 /\ nkill' = 0 /\ killOk' = TRUE /\ told' = FALSE /\ eintr' = FALSE /\ viol' = {}
 
 PInit(d0) ==
   /\ cst = "running" /\ truth = NoSt /\ exitT = NoTime /\ now = <<0, 0>> /\ det = d0
   /\ known = NoSt /\ op = "none" /\ opD = <<0, 0>> /\ opN = 0 /\ t0 = <<0, 0>> /\ knownAtCall = NoSt
-  /\ nwait = 0 /\ slept = FALSE /\ nsys = 0 /\ nkill = 0 /\ killOk = TRUE /\ told = FALSE /\ viol = {}
+  /\ nwait = 0 /\ slept = FALSE /\ nsys = 0 /\ nkill = 0 /\ killOk = TRUE /\ told = FALSE /\ eintr = FALSE /\ viol = {}
 
 \* ---------------------------------------------------------------- environment
 Exit(st, at) ==
   /\ cst = "running" /\ TLe(now, at)
   /\ cst' = "zombie" /\ truth' = st /\ exitT' = at
-  /\ UNCHANGED <<now, det, known, op, opD, opN, t0, knownAtCall, nwait, slept, nsys, nkill, killOk, told, viol>>
+  /\ UNCHANGED <<now, det, known, op, opD, opN, t0, knownAtCall, nwait, slept, nsys, nkill, killOk, told, eintr, viol>>
 
 XReap ==
   /\ cst = "zombie" /\ cst' = "reaped_ext"
-  /\ UNCHANGED <<truth, exitT, now, det, known, op, opD, opN, t0, knownAtCall, nwait, slept, nsys, nkill, killOk, told, viol>>
+  /\ UNCHANGED <<truth, exitT, now, det, known, op, opD, opN, t0, knownAtCall, nwait, slept, nsys, nkill, killOk, told, eintr, viol>>
 
 Reuse ==
   /\ cst = "reaped_ext" /\ cst' = "alien"
-  /\ UNCHANGED <<truth, exitT, now, det, known, op, opD, opN, t0, knownAtCall, nwait, slept, nsys, nkill, killOk, told, viol>>
+  /\ UNCHANGED <<truth, exitT, now, det, known, op, opD, opN, t0, knownAtCall, nwait, slept, nsys, nkill, killOk, told, eintr, viol>>
 
 Delay(t) ==
   /\ TLe(now, t) /\ now' = t
-  /\ UNCHANGED <<cst, truth, exitT, det, known, op, opD, opN, t0, knownAtCall, nwait, slept, nsys, nkill, killOk, told, viol>>
+  /\ UNCHANGED <<cst, truth, exitT, det, known, op, opD, opN, t0, knownAtCall, nwait, slept, nsys, nkill, killOk, told, eintr, viol>>
 
 \* ---------------------------------------------------------------- API
 Api(o, d, n) ==
   /\ op = "none"
   /\ op' = o /\ opD' = d /\ opN' = n /\ t0' = now /\ knownAtCall' = known
   /\ nwait' = 0 /\ slept' = FALSE /\ nsys' = 0 /\ nkill' = 0 /\ killOk' = TRUE
+  /\ eintr' = FALSE
   /\ UNCHANGED <<cst, truth, exitT, now, det, known, told, viol>>
 
 StatusOps == {"poll", "wait", "wait_timeout", "exit_status"}
@@ -109,16 +111,18 @@ ApiRet(o, res, t) ==
        \cup V(o \in StatusOps /\ res.k = "undetermined" => cst \in {"reaped_ext", "alien"}, "C09_truth")
        \cup V(o \in StatusOps => res.k # "other", "C09_truth")
        \cup V(o \in StatusOps /\ known # NoSt => st = known, "C09_final")
-       \cup V(o \in {"poll", "wait", "wait_timeout"} => res.k # "err", "C09_no_error")
+       \* (the one error that is the environment's doing: a signal handler interrupted the wait)
+       \cup V(o \in {"poll", "wait", "wait_timeout"} /\ res.k = "err" => eintr /\ res.v = 4 /\ o # "poll", "C09_no_error")
        \cup V(o = "wait" => IsStatus(res) \/ res.k \in {"err", "panic"}, "C09_truth")
        \cup V(o = "pid" => (res.k = "none") = (known # NoSt), "C09_pid_absent_once_known")
        \cup V(o = "pid" /\ res.k = "some" => res.v = VPid, "C09_pid_absent_once_known")
        \cup V(o \in {"pid", "exit_status", "detach"} => nsys = 0, "C09_quiet")
        \* ---- C10
-       \cup V(o \in SignalOps /\ knownAtCall # NoSt => res.k = "ok" /\ nkill = 0, "C10_silent_after_observed")
+       \* (a status the handle made up without the operating system ever saying the child is gone excuses nothing)
+       \cup V(o \in SignalOps /\ knownAtCall # NoSt /\ told => res.k = "ok" /\ nkill = 0, "C10_silent_after_observed")
        \cup V(o \in SignalOps /\ told /\ nkill = 0 => res.k = "ok", "C10_silent_once_found_reaped")
-       \cup V(o \in SignalOps /\ knownAtCall = NoSt /\ ~told => nkill = 1, "C10_exact")
-       \cup V(o \in SignalOps /\ knownAtCall = NoSt /\ nkill = 1 => (res.k = "ok") = killOk, "C10_exact")
+       \cup V(o \in SignalOps /\ ~told => nkill = 1, "C10_exact")
+       \cup V(o \in SignalOps /\ ~told /\ nkill = 1 => (res.k = "ok") = killOk, "C10_exact")
        \cup V(o \notin SignalOps => nkill = 0, "C10_exact")
        \* ---- C11
        \cup V(o = "wait_timeout" /\ res.k = "none" => TLe(deadline, t), "C11_not_early")
@@ -136,7 +140,7 @@ ApiRet(o, res, t) ==
        \* ---- C12 (the Popen itself)
        \cup V(o = "drop" /\ ~det => cst \notin {"running", "zombie"}, "C12_reaped")
        \cup V(o = "drop" /\ det => nsys = 0 /\ t = t0, "C12_detached")
-  /\ UNCHANGED <<cst, truth, exitT, opD, opN, t0, knownAtCall, nwait, slept, nsys, nkill, killOk, told>>
+  /\ UNCHANGED <<cst, truth, exitT, opD, opN, t0, knownAtCall, nwait, slept, nsys, nkill, killOk, told, eintr>>
 
 \* ---------------------------------------------------------------- system calls of the handle
 \* waitpid(child, nohang?) = ret (0 | VPid | -1/ECHILD) with status st
@@ -156,7 +160,13 @@ Waitpid(nohang, ret, st) ==
        \cup V(op = "wait_timeout" /\ nwait >= 1 => slept \/ TLe(TAdd(t0, opD), now), "C11_no_busy_wait")
        \cup V(op = "wait_timeout" => nwait + 1 <= MaxChecks(opD), "C11_no_busy_wait")
        \cup V(op = "drop" => ~det, "C12_detached")
-  /\ UNCHANGED <<truth, exitT, now, det, known, op, opD, opN, t0, knownAtCall, nkill, killOk>>
+  /\ UNCHANGED <<truth, exitT, now, det, known, op, opD, opN, t0, knownAtCall, nkill, killOk, eintr>>
+
+\* waitpid was interrupted by a signal handler (EINTR): nothing happened to the child, nothing was learnt about it
+WaitpidEintr(nohang) ==
+  /\ nwait' = nwait + 1 /\ nsys' = nsys + 1 /\ eintr' = TRUE
+  /\ viol' = viol \cup V(known = NoSt, "C09_quiet") \cup V(op # "none", "C09_quiet")
+  /\ UNCHANGED <<cst, truth, exitT, now, det, known, op, opD, opN, t0, knownAtCall, slept, nkill, killOk, told>>
 
 \* a blocking waitpid really had to wait (forever = TRUE: the child never exits by itself)
 WaitBlock ==
@@ -165,7 +175,7 @@ WaitBlock ==
        \cup V(op # "poll", "C11_poll_nonblocking")
        \cup V(op # "wait_timeout", "C11_wait_timeout_blocks")
        \cup V(op = "drop" => ~det, "C12_detached")
-  /\ UNCHANGED <<cst, truth, exitT, now, det, known, op, opD, opN, t0, knownAtCall, nwait, slept, nsys, nkill, killOk, told>>
+  /\ UNCHANGED <<cst, truth, exitT, now, det, known, op, opD, opN, t0, knownAtCall, nwait, slept, nsys, nkill, killOk, told, eintr>>
 
 \* kill(pid, sig) = ret
 Kill(pid, sig, ret) ==
@@ -173,22 +183,22 @@ Kill(pid, sig, ret) ==
   /\ nkill' = nkill + 1 /\ nsys' = nsys + 1 /\ killOk' = (ret = 0)
   /\ viol' = viol
        \cup V(pid = VPid, "C10_exact")
-       \cup V(known = NoSt, "C10_silent_after_observed")
+       \cup V(known = NoSt \/ ~told, "C10_silent_after_observed")
        \cup V(~told, "C10_silent_once_found_reaped")
        \cup V(op \in SignalOps, "C10_exact")
        \cup V(op = "terminate" => sig = SIGTERM, "C10_exact")
        \cup V(op = "kill" => sig = SIGKILL, "C10_exact")
        \cup V(op = "send_signal" => sig = opN, "C10_exact")
        \cup V(nkill = 0, "C10_exact")
-  /\ UNCHANGED <<cst, truth, exitT, now, det, known, op, opD, opN, t0, knownAtCall, nwait, slept, told>>
+  /\ UNCHANGED <<cst, truth, exitT, now, det, known, op, opD, opN, t0, knownAtCall, nwait, slept, told, eintr>>
 
 \* the handle touched a process that is not its child
 ForeignKill ==
   /\ viol' = viol \cup {"C10_exact"}
-  /\ UNCHANGED <<cst, truth, exitT, now, det, known, op, opD, opN, t0, knownAtCall, nwait, slept, nsys, nkill, killOk, told>>
+  /\ UNCHANGED <<cst, truth, exitT, now, det, known, op, opD, opN, t0, knownAtCall, nwait, slept, nsys, nkill, killOk, told, eintr>>
 ForeignWait ==
   /\ viol' = viol \cup {"C09_quiet"}
-  /\ UNCHANGED <<cst, truth, exitT, now, det, known, op, opD, opN, t0, knownAtCall, nwait, slept, nsys, nkill, killOk, told>>
+  /\ UNCHANGED <<cst, truth, exitT, now, det, known, op, opD, opN, t0, knownAtCall, nwait, slept, nsys, nkill, killOk, told, eintr>>
 
 \* sleep(d) returned at instant t
 Sleep(d, t) ==
@@ -197,7 +207,7 @@ Sleep(d, t) ==
   /\ viol' = viol
        \cup V(op # "poll", "C11_poll_nonblocking")
        \cup V(op = "wait_timeout", "C11_sleep_outside_wait_timeout")
-  /\ UNCHANGED <<cst, truth, exitT, det, known, op, opD, opN, t0, knownAtCall, nwait, nkill, killOk, told>>
+  /\ UNCHANGED <<cst, truth, exitT, det, known, op, opD, opN, t0, knownAtCall, nwait, nkill, killOk, told, eintr>>
 
 \* n consecutive pairs (waitpid(nohang) = 0 ; sleep(d)) during which nothing else happened
 BkRun(n, d, t) ==
@@ -210,9 +220,9 @@ BkRun(n, d, t) ==
        \cup V(op = "wait_timeout" /\ nwait >= 1 => slept \/ TLe(TAdd(t0, opD), now), "C11_no_busy_wait")
        \cup V(n > 1 => d # <<0, 0>>, "C11_no_busy_wait")
        \cup V(op = "wait_timeout" => nwait + n <= MaxChecks(opD), "C11_no_busy_wait")
-  /\ UNCHANGED <<cst, truth, exitT, det, known, op, opD, opN, t0, knownAtCall, nkill, killOk, told>>
+  /\ UNCHANGED <<cst, truth, exitT, det, known, op, opD, opN, t0, knownAtCall, nkill, killOk, told, eintr>>
 
 Runaway ==
   /\ viol' = viol \cup {"C11_no_busy_wait"}
-  /\ UNCHANGED <<cst, truth, exitT, now, det, known, op, opD, opN, t0, knownAtCall, nwait, slept, nsys, nkill, killOk, told>>
+  /\ UNCHANGED <<cst, truth, exitT, now, det, known, op, opD, opN, t0, knownAtCall, nwait, slept, nsys, nkill, killOk, told, eintr>>
 =============================================================================
